@@ -18,7 +18,7 @@ RULE = ("lines from two points (coordinates <= 1e3, >= 1e-3 apart), from point +
         "geometry of the defining data (point-line distance, orthogonal projection, transformed points, constructed ground "
         "truth for predicates) with residuals <= 1e-9 x data magnitude; predicates that take a tolerance are given one scaled "
         "to the data. Non-trivial: line not through the origin, direction not unit, not axis-aligned.")
-RULE = RULE + probes.RULE_TEXT + probes.VARIANT_TEXT + probes.OWN_TEXT
+RULE = RULE + probes.RULE_TEXT + probes.VARIANT_TEXT + probes.OWN_TEXT + probes.EXTRA_RULES.get(PROPERTY_ID, "")
 ASSUMPTIONS = ["the intersection predicate ^ / intersects() is not in the statement and is not judged",
                "'different' lines differ by at least 5% of the scale so that no predicate is asked a borderline question",
                "library convention: moment v = w x p for a point p of the line, plane n.x + d = 0"]
